@@ -69,14 +69,15 @@ def kernel_batch(cases):
 
 # ---------------------------------------------------------------- (b) real csvpaths
 def run_impl(job):
-    qs, vals, rest, fname = job
+    qs, vals, rest, fname = job[:4]
+    tracked = len(job) > 4 and job[4]        # the tracking-key form: @x.k.<qualifiers> = #a writes variables["x"]["k"]
     from csvpath import CsvPath
     rows = [["id", "a"]] + [[f"r{i}"] + ([] if v is None else [v]) for i, v in enumerate(vals)]
     gen.write_rows(fname, rows)
     out = {"exc": None, "obs": []}
     try:
         quals = "".join("." + q for q in Q if q in qs)
-        text = f"${fname}[1*][ @x{quals} = #a {'yes()' if rest else 'no()'} ]"
+        text = f"${fname}[1*][ @x{'.k' if tracked else ''}{quals} = #a {'yes()' if rest else 'no()'} ]"
         out["text"] = text
         with Quiet():
             p = CsvPath()
@@ -87,7 +88,10 @@ def run_impl(job):
 
             def wrapped(line):
                 r = orig(line)
-                obs.append((bool(r), p.variables.get("x")))
+                xv = p.variables.get("x")
+                if tracked:
+                    xv = (xv.get("k") if isinstance(xv, dict) else ("NOT-A-DICT:" + repr(xv))) if xv is not None else None
+                obs.append((bool(r), xv))
                 return r
             p.matches = wrapped
             lines = p.collect()
@@ -143,10 +147,11 @@ def run(ctx):
             for vals in seqs:
                 for rest in (True, False):
                     rjobs.append((qs, vals, rest))
-    rjobs = [(qs, vals, rest, f"c14_{i}.csv") for i, (qs, vals, rest) in enumerate(rjobs)]
+    # a fifth of the runs (quick: a third) use the tracking-key form @x.k.<qualifiers> = #a: same votes, the value lives under the key
+    rjobs = [(qs, vals, rest, f"c14_{i}.csv", rng.random() < (0.33 if quick else 0.2)) for i, (qs, vals, rest) in enumerate(rjobs)]
     rres = pmap(ctx, run_impl, rjobs, chunksize=32)
     rlits = []
-    for (qs, vals, rest, _), o in zip(rjobs, rres):
+    for (qs, vals, rest, _, _t), o in zip(rjobs, rres):
         rows = listlit(vals, lambda v: f"(mkArow {av(v)} {blit(rest)})")
         obs = listlit(o["obs"], lambda t: f"({blit(t[0])}, {av(t[1])})") if not o["exc"] else "[]"
         rlits.append(f"mkC14R {qlit(qs)} {rows} {blit(bool(o['exc']))} {obs}")
@@ -158,8 +163,8 @@ def run(ctx):
                 "impl": {"raised": kres[i][0], "wrote": kres[i][1], "vote": kres[i][2]}}
 
     def rcase(i):
-        qs, vals, rest, _ = rjobs[i]
-        return {"level": "run", "csvpath": rres[i].get("text"), "qualifiers": sorted(qs), "values_of_a": list(vals), "rest": rest,
+        qs, vals, rest, _, _t = rjobs[i]
+        return {"level": "run", "csvpath": rres[i].get("text"), "qualifiers": sorted(qs), "values_of_a": list(vals), "rest": rest, "tracking_key_form": _t,
                 "impl": {"exception": rres[i]["exc"], "per_line_returned_and_x": rres[i]["obs"]}}
     spec_fail = [("k", i) for i in sorted(kbad["c14k_spec"])] + [("r", i) for i in sorted(rbad["c14r_spec"])]
     exc_runs = [i for i, o in enumerate(rres) if o["exc"]]
@@ -175,7 +180,7 @@ def run(ctx):
                                          "disagreeing_case": get(agree_fail[0])}, no_input=True)
     ctx.coverage.update({
         "evaluations": len(kcases) + len(rjobs),
-        "distinct_nontrivial": len({(qs, vals, rest) for (qs, vals, rest, _), o in zip(rjobs, rres) if not o["exc"] and len({x for _, x in o["obs"]}) > 1}),
+        "distinct_nontrivial": len({(qs, vals, rest) for (qs, vals, rest, _, _t), o in zip(rjobs, rres) if not o["exc"] and len({x for _, x in o["obs"]}) > 1}),
         "rule": "kernel: all 256 qualifier subsets x {rest matches, not} x pairs (current, new) from 14 values (None, ints incl. 0, strings incl. '', 'true', 'False', 'nan') "
                 "(quick: 40 random pairs per subset x lm; thorough: all 196); runs: csvpaths [ @x.<quals> = #a  yes()|no() ] over 3-line files, #a from {absent,1,2,3} (+true/false "
                 "without increase/decrease) (quick: 6-7 sequences per subset x rest; thorough: all sequences), x read after every line. Non-trivial = distinct run where x takes >= 2 values.",
@@ -195,6 +200,6 @@ def replay(ctx, payload):
         r = kernel_batch([(frozenset(c["qualifiers"]), c["rest_of_line_matches"], c["current"], c["new"])])[0]
         print(c); print("impl now: raised=%s wrote=%s vote=%s" % r)
     else:
-        o = run_impl((frozenset(c["qualifiers"]), tuple(c["values_of_a"]), c["rest"], "replay_c14.csv"))
+        o = run_impl((frozenset(c["qualifiers"]), tuple(c["values_of_a"]), c["rest"], "replay_c14.csv", bool(c.get("tracking_key_form"))))
         print(c["csvpath"]); print("recorded:", c["impl"]); print("impl now:", o)
     return 0
